@@ -7,7 +7,7 @@
 # (properties.jsonl -> anchors.files) its own run never executes, and which no engine executes.
 #
 #   tools/coverage.sh            full audit into /tmp/cov (build output removed at the end)
-#   KEEP=1 tools/coverage.sh     keep /tmp/cov/target (1.3 GB) for re-runs
+#   KEEP=1 tools/coverage.sh     keep /tmp/cov/target (1.9 GB) and the raw profiles for re-runs
 #   PROPS="C12 C13" …            only these properties (the "no engine" columns are then relative to that subset)
 #   SEED=7 TIER=thorough …       another seed / tier
 #   STEPS="snap build run merge report"   run only some steps (default: all)
@@ -23,6 +23,7 @@
 #  * /repo is shared: other engineers apply seeded changes to it for a minute at a time.  The audit therefore builds
 #    from a copy, and refuses the copy while any kept seed (seeded/*/patch.diff) is applied in it
 #    (applied = reverse applies with zero fuzz AND forward does not; `patch -R --dry-run` WITH fuzz gives false positives).
+#    A seed that is still being written (not yet under seeded/) is not recognised: compare $COV/repo.sha256 of two runs if in doubt.
 #  * SIGKILLed children (C06K) and crash probes (C19) never run the atexit profile writer: the build uses
 #    `-runtime-counter-relocation` and LLVM_PROFILE_FILE carries `%c` (continuous mode: counters live in the mmapped file).
 #  * the c20 global allocator does not disturb the profiling runtime (it allocates with malloc, not through Rust).
@@ -38,6 +39,8 @@ export CARGO_NET_OFFLINE=true
 LLVM_BIN=${LLVM_BIN:-$(ls -d ~/.rustup/toolchains/*/lib/rustlib/*/bin 2>/dev/null | while read d; do [ -x $d/llvm-cov ] && echo $d; done | head -1)}
 [ -x "$LLVM_BIN/llvm-cov" ] || { echo "no llvm-cov / llvm-profdata found under ~/.rustup/toolchains (set LLVM_BIN)"; exit 2; }
 H=$COV/askar_harness.cov      # copy of the instrumented binary (survives the removal of target/)
+rv=$(rustc +$TOOLCHAIN -vV | sed -n 's/^LLVM version: \([0-9]*\)\..*/\1/p'); cv=$($LLVM_BIN/llvm-cov --version | sed -n 's/.*LLVM version \([0-9]*\)\..*/\1/p' | head -1)
+[ "$rv" = "$cv" ] || { echo "rustc +$TOOLCHAIN uses LLVM $rv but $LLVM_BIN/llvm-cov is LLVM $cv: profile formats may differ (set TOOLCHAIN / LLVM_BIN)"; exit 2; }
 mkdir -p $COV/cases $COV/prof $COV/report $COV/trash
 has() { case " $STEPS " in *" $1 "*) return 0;; esac; return 1; }
 
@@ -152,6 +155,7 @@ if has merge; then
     $LLVM_BIN/llvm-profdata merge -sparse $COV/prof/$p/*.profraw -o $COV/prof/$p.profdata 2>> $COV/report/merge.err
   done
   $LLVM_BIN/llvm-profdata merge -sparse $(for p in $PROPS; do [ -f $COV/prof/$p.profdata ] && echo $COV/prof/$p.profdata; done) -o $COV/prof/ALL.profdata
+  [ "${KEEP:-0}" = 1 ] || for p in $PROPS; do rm -rf $COV/prof/$p; done      # raw profiles: 4.6 MB per process
 fi
 
 # ------------------------------------------------------------------------------------------------ report
@@ -162,9 +166,267 @@ if has report; then
     $LLVM_BIN/llvm-cov export -format=text -skip-expansions -instr-profile=$COV/prof/$p.profdata -ignore-filename-regex="$IGN" $H > $COV/report/$p.json 2>> $COV/report/export.err
   done
   $LLVM_BIN/llvm-cov report -instr-profile=$COV/prof/ALL.profdata -ignore-filename-regex="$IGN" $H > $COV/report/ALL.files.txt 2>> $COV/report/export.err
-  cat > $COV/analyze.py <<'EOF'
-ANALYZE_PY_PLACEHOLDER
-EOF
+  cat > $COV/analyze.py <<'ANALYZE_EOF'
+"""coverage audit: reads report/<PROP>.json (llvm-cov export) + properties.jsonl, writes report/*.txt, prints the summary.
+Function spans and names come from the SOURCE (brace matching), because an `async fn` body, a closure and every generic
+instantiation are separate coverage functions: each coverage function is attributed to the innermost source `fn`
+containing its first line, and counts are summed over instantiations."""
+import json, sys, os, re, collections
+
+COV, VERIF, PROPS = sys.argv[1], sys.argv[2], sys.argv[3].split()
+ROOT = COV + "/repo/"
+REP = COV + "/report/"
+EXCL = re.compile(r"(backend/postgres|/tests/|/benches/|verif_hooks\.rs)")
+SRC_DIRS = ("src/", "askar-storage/src/", "askar-crypto/src/")
+
+
+def scan_source(path):
+    """-> list of (start_line, end_line, qualified_name) for every fn with a body"""
+    s = open(path, encoding="utf-8", errors="replace").read()
+    out, stack = [], []          # stack of [kind, name, header_start_line]
+    i, n, line = 0, len(s), 1
+    hdr, hdr_line = [], None     # tokens since the last boundary
+    pd = 0                       # ( [ depth inside the header: `[u8; N]` is not a boundary
+    def header():
+        return " ".join("".join(hdr).split())
+    while i < n:
+        c = s[i]
+        if c == "\n":
+            line += 1; hdr.append(" "); i += 1; continue
+        if s.startswith("//", i):
+            j = s.find("\n", i); i = n if j < 0 else j; continue
+        if s.startswith("/*", i):
+            d, j = 1, i + 2
+            while j < n and d:
+                if s.startswith("/*", j): d += 1; j += 2
+                elif s.startswith("*/", j): d -= 1; j += 2
+                else:
+                    if s[j] == "\n": line += 1
+                    j += 1
+            i = j; continue
+        m = re.match(r'b?r(#*)"', s[i:i + 12]) if c in "br" and (i == 0 or not (s[i - 1].isalnum() or s[i - 1] == "_")) else None
+        if m:
+            end = '"' + m.group(1)
+            j = s.find(end, i + len(m.group(0)))
+            j = n if j < 0 else j + len(end)
+            line += s.count("\n", i, j); hdr.append('""'); i = j; continue
+        if c == '"':
+            j = i + 1
+            while j < n and s[j] != '"':
+                if s[j] == "\\": j += 1
+                if j < n and s[j] == "\n": line += 1
+                j += 1
+            hdr.append('""'); i = j + 1; continue
+        if c == "'":
+            m = re.match(r"'(\\.[^']*|[^'\\])'", s[i:i + 12])
+            if m:
+                hdr.append("' '"); i += len(m.group(0)); continue
+            hdr.append(c); i += 1; continue        # lifetime
+        if c == "{":
+            h = header()
+            kind, name = "block", ""
+            mf = re.search(r"(?:^|[\s)\]>])fn\s+([A-Za-z_$][\w$]*)", " " + h)
+            mi = re.match(r"(?:#\[[^\]]*\]\s*)*(?:unsafe\s+)?impl\b(.*)", h)
+            mt = re.match(r"(?:#\[[^\]]*\]\s*)*(?:pub(?:\([^)]*\))?\s+)?(?:unsafe\s+)?trait\s+(\w+)", h)
+            mm = re.match(r"(?:#\[[^\]]*\]\s*)*(?:pub(?:\([^)]*\))?\s+)?mod\s+(\w+)", h)
+            if mi and not mf:
+                t = mi.group(1)
+                t = re.sub(r"\bwhere\b.*", "", t)
+                while True:
+                    t2 = re.sub(r"<[^<>]*>", "", t)
+                    if t2 == t: break
+                    t = t2
+                kind, name = "impl", " ".join(t.split())
+            elif mt and not mf: kind, name = "impl", mt.group(1)
+            elif mm and not mf: kind, name = "mod", mm.group(1)
+            elif mf and "=>" not in h.split("fn " + mf.group(1))[0][-3:]: kind, name = "fn", mf.group(1)
+            stack.append([kind, name, hdr_line or line]); hdr, hdr_line, pd = [], None, 0; i += 1; continue
+        if c == "}":
+            if stack:
+                kind, name, st = stack.pop()
+                if kind == "fn":
+                    q = [x[1] for x in stack if x[0] in ("impl", "fn") and x[1]] + [name]
+                    out.append((st, line, "::".join(q)))
+            hdr, hdr_line, pd = [], None, 0; i += 1; continue
+        if c in "([": pd += 1
+        elif c in ")]": pd = max(0, pd - 1)
+        if c == ";" and pd == 0:
+            hdr, hdr_line = [], None; i += 1; continue
+        if not c.isspace() and hdr_line is None and c != "#":
+            hdr_line = line
+        elif c == "#" and hdr_line is None:
+            hdr_line = line
+        hdr.append(c); i += 1
+    return out
+
+
+SRC_FNS, SRC_TXT = {}, {}
+def fns_of(rel):
+    if rel not in SRC_FNS:
+        SRC_FNS[rel] = sorted(scan_source(ROOT + rel))
+        SRC_TXT[rel] = open(ROOT + rel, encoding="utf-8", errors="replace").read().split("\n")
+    return SRC_FNS[rel]
+
+def owner(rel, ln):
+    best = None
+    for st, en, nm in fns_of(rel):
+        if st <= ln <= en and (best is None or st >= best[0]):
+            best = (st, en, nm)
+    return best or (ln, ln, f"<item at line {ln}>")
+
+def excerpt(rel, r):
+    fns_of(rel)
+    t = SRC_TXT[rel]
+    l1, c1, l2, c2 = r
+    if l1 == l2: x = t[l1 - 1][c1 - 1:c2 - 1]
+    else: x = t[l1 - 1][c1 - 1:] + " " + " ".join(y.strip() for y in t[l1:l2 - 1]) + " " + t[l2 - 1][:c2 - 1].strip()
+    x = " ".join(x.split())
+    return x if len(x) <= 70 else x[:67] + "..."
+
+
+def load(p):
+    d = json.load(open(f"{REP}{p}.json"))["data"][0]
+    files = {}
+    for f in d["files"]:
+        fn = f["filename"]
+        if fn.startswith(ROOT) and fn[len(ROOT):].startswith(SRC_DIRS) and not EXCL.search(fn):
+            files[fn[len(ROOT):]] = f["summary"]
+    reg = collections.defaultdict(int)           # (file, l1, c1, l2, c2) -> count summed over instantiations
+    own = {}                                     # region -> owning source fn (st, en, name)
+    for fn in d["functions"]:
+        f = fn["filenames"][0]
+        if not f.startswith(ROOT): continue
+        rel = f[len(ROOT):]
+        if rel not in files: continue
+        rs = [r for r in fn["regions"] if r[7] == 0 and r[5] == 0]
+        if not rs: continue
+        o = owner(rel, min(r[0] for r in rs))
+        for r in rs:
+            k = (rel,) + tuple(r[:4])
+            reg[k] += r[4]
+            own[k] = o
+    return files, reg, own
+
+
+def per_fn(reg, own):
+    """-> {(file, st, en, name): {"regions": n, "zero": [region…], "hit": bool}}"""
+    F = {}
+    for k, c in reg.items():
+        o = own[k]
+        e = F.setdefault((k[0],) + o, {"regions": 0, "zero": [], "hit": False})
+        e["regions"] += 1
+        if c > 0: e["hit"] = True
+        else: e["zero"].append(k[1:])
+    return F
+
+
+props = {}
+for l in open(VERIF + "/properties.jsonl"):
+    if l.strip():
+        j = json.loads(l); props[j["id"]] = j
+
+data = {p: load(p) for p in PROPS + ["ALL"] if os.path.exists(f"{REP}{p}.json")}
+PROPS = [p for p in PROPS if p in data]
+ALLF, ALLR, ALLO = data["ALL"]
+allfn = per_fn(ALLR, ALLO)
+srcfiles = sorted(ALLF)
+
+def anchors(p):
+    a = props.get(p, {}).get("anchors", {})
+    fs = [f for f in a.get("files", []) if f.endswith(".rs")]
+    for m in a.get("mechanism", []):
+        for w in re.findall(r"[\w/\-]+\.rs", m.get("where", "")):
+            c = [f for f in srcfiles if f == w or f.endswith("/" + w)]
+            if len(c) == 1 and c[0] not in fs: fs.append(c[0])
+    return [f for f in fs if f in ALLF]
+
+def pct(a, b): return "  -  " if not b else f"{100.0 * a / b:5.1f}"
+
+# 1. per-file matrix ------------------------------------------------------------------------------------------------
+with open(REP + "files.tsv", "w") as fh:
+    fh.write("file\tlines\tregions\tALL line%\tALL region%\t" + "\t".join(PROPS) + "   (per property: line%; * = anchored)\n")
+    for f in srcfiles:
+        s = ALLF[f]
+        row = [f, str(s["lines"]["count"]), str(s["regions"]["count"]), pct(s["lines"]["covered"], s["lines"]["count"]), pct(s["regions"]["covered"], s["regions"]["count"])]
+        for p in PROPS:
+            sp = data[p][0].get(f)
+            row.append((pct(sp["lines"]["covered"], sp["lines"]["count"]).strip() if sp else "-") + ("*" if f in anchors(p) else ""))
+        fh.write("\t".join(row) + "\n")
+
+# 2. per property: anchored files ------------------------------------------------------------------------------------
+runs = {}
+if os.path.exists(REP + "runs.tsv"):
+    for l in open(REP + "runs.tsv"):
+        x = l.rstrip("\n").split("\t")
+        runs[x[0]] = x
+summary = []
+for p in PROPS:
+    files, reg, own = data[p]
+    F = per_fn(reg, own)
+    A = anchors(p)
+    tot = dict(l=0, lc=0, r=0, rc=0, fn=0, fn_miss=0, fn_miss_all=0, zr=0, zr_all=0)
+    with open(f"{REP}anchors-{p}.txt", "w") as fh:
+        fh.write(f"# {p}: functions / regions of its anchored files that its own {runs.get(p, ['', '', '?'])[2]}-case run never executes   ('!' = no engine executes it either)\n")
+        for f in A:
+            s = files[f]
+            tot["l"] += s["lines"]["count"]; tot["lc"] += s["lines"]["covered"]; tot["r"] += s["regions"]["count"]; tot["rc"] += s["regions"]["covered"]
+            fh.write(f"\n## {f}   lines {pct(s['lines']['covered'], s['lines']['count'])}%  regions {pct(s['regions']['covered'], s['regions']['count'])}%   (all engines: lines {pct(ALLF[f]['lines']['covered'], ALLF[f]['lines']['count'])}%)\n")
+            fl = sorted(k for k in F if k[0] == f)
+            miss = [k for k in fl if not F[k]["hit"]]
+            tot["fn"] += len(fl); tot["fn_miss"] += len(miss)
+            if miss: fh.write("  never entered:\n")
+            for k in miss:
+                na = not allfn[k]["hit"]
+                tot["fn_miss_all"] += na
+                fh.write(f"   {'!' if na else ' '} {k[3]}  [{k[1]}-{k[2]}]  ({F[k]['regions']} regions)\n")
+            part = [k for k in fl if F[k]["hit"] and F[k]["zero"]]
+            if part: fh.write("  entered, regions never executed:\n")
+            for k in part:
+                fh.write(f"     {k[3]}  [{k[1]}-{k[2]}]  {len(F[k]['zero'])}/{F[k]['regions']} regions at 0\n")
+                for r in sorted(F[k]["zero"]):
+                    na = ALLR[(f,) + r] == 0
+                    tot["zr"] += 1; tot["zr_all"] += na
+                    fh.write(f"       {'!' if na else ' '} {r[0]}:{r[1]}-{r[2]}:{r[3]}  {excerpt(f, r)}\n")
+    summary.append((p, A, tot))
+
+# 3. no engine at all -------------------------------------------------------------------------------------------------
+anch_by = collections.defaultdict(list)
+for p in PROPS:
+    for f in anchors(p): anch_by[f].append(p)
+with open(REP + "never.txt", "w") as fh:
+    fh.write("# functions and regions that NO engine executes (quick tier, all properties merged)\n")
+    for f in srcfiles:
+        fl = sorted(k for k in allfn if k[0] == f)
+        miss = [k for k in fl if not allfn[k]["hit"]]
+        part = [k for k in fl if allfn[k]["hit"] and allfn[k]["zero"]]
+        if not miss and not part: continue
+        s = ALLF[f]
+        fh.write(f"\n## {f}   lines {pct(s['lines']['covered'], s['lines']['count'])}%  regions {pct(s['regions']['covered'], s['regions']['count'])}%   anchored by: {' '.join(anch_by.get(f, [])) or '-'}\n")
+        for k in miss:
+            fh.write(f"   fn {k[3]}  [{k[1]}-{k[2]}]  ({allfn[k]['regions']} regions)\n")
+        for k in part:
+            fh.write(f"   in {k[3]}  [{k[1]}-{k[2]}]  {len(allfn[k]['zero'])}/{allfn[k]['regions']} regions at 0\n")
+            for r in sorted(allfn[k]["zero"]):
+                fh.write(f"        {r[0]}:{r[1]}-{r[2]}:{r[3]}  {excerpt(f, r)}\n")
+
+# 4. summary ----------------------------------------------------------------------------------------------------------
+commit = open(COV + "/repo.commit").read().strip() if os.path.exists(COV + "/repo.commit") else "?"
+print(f"\nCOVERAGE AUDIT  /repo {commit[:7]}  ({len(srcfiles)} source files)")
+tl = sum(ALLF[f]["lines"]["count"] for f in srcfiles); tc = sum(ALLF[f]["lines"]["covered"] for f in srcfiles)
+rl = sum(ALLF[f]["regions"]["count"] for f in srcfiles); rc = sum(ALLF[f]["regions"]["covered"] for f in srcfiles)
+nf = len(allfn); nfm = sum(1 for k in allfn if not allfn[k]["hit"])
+print(f"all engines merged: lines {pct(tc, tl)}% ({tc}/{tl})  regions {pct(rc, rl)}% ({rc}/{rl})  source fns {nf - nfm}/{nf} entered")
+print("\nprop  cases fail  secs | anchored files: n  line%  region% | fns  not-entered (by no engine) | 0-regions in entered fns (by no engine)")
+for p, A, t in summary:
+    r = runs.get(p, [p, "", "?", "?", "?", "?"])
+    print(f"{p:5} {r[2]:>5} {r[4]:>4} {r[5]:>5} | {len(A):>17}  {pct(t['lc'], t['l'])}  {pct(t['rc'], t['r'])}   | {t['fn']:>4} {t['fn_miss']:>6} ({t['fn_miss_all']:>3})            | {t['zr']:>5} ({t['zr_all']:>4})")
+print("\nper file, all engines merged (line% / region% / fns not entered):")
+for f in srcfiles:
+    s = ALLF[f]
+    fl = [k for k in allfn if k[0] == f]
+    print(f"  {f:55} {pct(s['lines']['covered'], s['lines']['count'])} {pct(s['regions']['covered'], s['regions']['count'])}  {sum(1 for k in fl if not allfn[k]['hit']):>3}/{len(fl):<3} {' '.join(anch_by.get(f, []))}")
+print(f"\ndetails: {REP}anchors-<PROP>.txt  {REP}never.txt  {REP}files.tsv")
+ANALYZE_EOF
   python3 $COV/analyze.py $COV $VERIF "$PROPS"
 fi
 
